@@ -25,7 +25,12 @@ def _guard(fn, task):
     """An exception escaping a worker is reported as a violation of kind 'exception' (never a crashed check):
     explorers other than C14/C15 do not expect the implementation to raise on the inputs they generate."""
     try:
-        return fn(task)
+        res = fn(task)
+        if hasattr(res, "cov"):
+            from mc import cover
+
+            res.cov |= set(cover.take_new())
+        return res
     except Exception as ex:  # noqa: BLE001
         import traceback
 
